@@ -149,6 +149,9 @@ func c19BFS(c *core.Ctx, r *core.Result, cfgName string, forks []c19Fork, maxH u
 					// of this build ever touches the database): only where the model says a regular start-up would be refused
 					blocks, direct := bi, false
 					if bi >= 3 {
+						if maxSessions > 3 && depth >= 2 {
+							continue // thorough: forced sessions among the first two sessions only (state count; every refused start-up leaks a handle)
+						}
 						blocks, direct = bi-2, true
 						if blocks > 2 || v == c19Legacy {
 							continue
@@ -225,7 +228,7 @@ func c19BFS(c *core.Ctx, r *core.Result, cfgName string, forks []c19Fork, maxH u
 							r.Sample(map[string]interface{}{"forks": cfgName, "history": st.hist, "starting_build": v, "refused": got, "model_says_refuse": want})
 						}
 						if err != nil {
-							if blocks == 0 || !want {
+							if blocks == 0 || !want || (maxSessions > 3 && depth >= 2) {
 								os.RemoveAll(dir)
 								continue // the session never runs
 							}
